@@ -273,13 +273,13 @@ func (f *Frame) inlineCall(callee *ssa.Function, args []string, res *ssa.Call, s
 
 // calleeSig describes what a contract call needs to know about the callee.
 type calleeSig struct {
-	key      string
-	pkg      string
-	name     string
-	names    []string
-	types    []types.Type
-	results  *types.Tuple
-	fn       *ssa.Function // nil for interface methods
+	key     string
+	pkg     string
+	name    string
+	names   []string
+	types   []types.Type
+	results *types.Tuple
+	fn      *ssa.Function // nil for interface methods
 }
 
 func sigOfFunc(callee *ssa.Function) calleeSig {
